@@ -51,7 +51,6 @@
 //@ ob pfc_ctor_clamp entry=h_ctor_clamp tier=B props=C12 kind=statement defs=-DMEMALLOC=32,-DNS=3,-DML=2,-DBS=2 unwind=7 timeout=900 replay=pfc foreach=BSARG:0-1
 //@ ob pfc_grow entry=h_ctor tier=B props=C07 kind=statement defs=-DNS=2,-DML=1,-DBS=2 unwind=8 timeout=1200 mem=24 replay=pfc_grow foreach=MEMALLOC:1-3
 //@ ob pfc_grow_long entry=h_ctor tier=B props=C07 kind=statement defs=-DNS=1,-DML=6,-DBS=2,-DMEMALLOC=1 unwind=10 timeout=1200 mem=24 replay=pfc_grow
-//@ ob pfc_grow3 entry=h_ctor tier=B props=C07 kind=statement defs=-DNS=3,-DML=2,-DBS=3 unwind=34 timeout=2400 replay=pfc_grow foreach=MEMALLOC:1-4 only=thorough
 //@ ob pfc_extract entry=h_extract tier=B props=C01,C03,C02,C07,C12,C15 kind=representation unwindset=mk_dict.0:40 timeout=900 replay=pfc grid=pfc gridskip=5x3b5+6x2b6+6x2b3+5x2b5
 //@ ob pfc_locate entry=h_locate tier=B props=C01,C03,C07,C12,C14 kind=representation unwindset=mk_dict.0:40 timeout=900 replay=pfc grid=pfc gridskip=5x3b5+6x2b6+6x2b3+5x2b5
 //@ ob pfc_rank entry=h_rank tier=B props=C03,C14,C15 kind=representation unwindset=mk_dict.0:40 timeout=900 replay=pfc grid=pfc gridskip=5x3b5+6x2b6+6x2b3+5x2b5
